@@ -41,3 +41,29 @@ Lemma ex_drained_ok :
   quiescent ex_drained = true /\ hrpt (g_sh ex_drained) = hwpt (g_sh ex_drained) /\
   g_got ex_drained = [Some [1; 2; 3; 4; 5]; Some [161; 161; 161; 161]].
 Proof. vm_compute. repeat split; reflexivity. Qed.
+
+(* a reader blocked in qb_rb_chunk_read(timeout -1) until the writer has published and posted; the state just before
+   the reader's read_pt store, and the idle state after it (one chunk consumed, one unread, one token) *)
+Definition ex2_init : state := init ex_ring [WWrite [1; 2; 3; 4; 5]; WWrite [9; 9]] [RRead 64 true].
+Definition ex2_before : state := exec (times 60 TW ++ times 18 TR) ex2_init.
+Definition ex2_after : state := exec (times 60 TW ++ times 40 TR) ex2_init.
+
+Lemma ex2_read_return :
+  Inv ex2_before /\ is_read (rcur (g_r ex2_before)) = true /\
+  exists s' lab, step TR ex2_before = Some (s', (lab, Some (5, [1; 2; 3; 4; 5]))).
+Proof.
+  split; [apply all_inv; exact ex_ring_wf|]. split; [vm_compute; reflexivity|].
+  destruct (step TR ex2_before) as [[s' [lab r]]|] eqn:E.
+  - assert (r = Some (5, [1; 2; 3; 4; 5])).
+    { assert (H : match step TR ex2_before with Some (_, (_, x)) => x | None => None end = Some (5, [1; 2; 3; 4; 5]))
+        by (vm_compute; reflexivity).
+      rewrite E in H. exact H. }
+    subst r. exists s', lab. reflexivity.
+  - exfalso. assert (H : match step TR ex2_before with Some _ => true | None => false end = true) by (vm_compute; reflexivity).
+    rewrite E in H. discriminate.
+Qed.
+
+Lemma ex2_tokens :
+  Forall (fun c => is_peek c = false) [RRead 64 true] /\ quiescent ex2_after = true /\ hsem (g_sh ex2_after) = Some 1 /\
+  length (g_pub ex2_after) = 2%nat /\ length (g_got ex2_after) = 1%nat.
+Proof. split; [repeat constructor|]. vm_compute. repeat split; reflexivity. Qed.
